@@ -28,11 +28,12 @@ HARNESSES = [
          nochecks=["--conversion-check"],
          cases=[dict(id="all", tier="quick")]),
     dict(name="xattr_idtable", file="xattr_idtable.c",
-         label="bounded(sets in {1,2,511,512,513,1024,1025})", timeout=170,
-         include_dirs=["lib/sqfs/src/xattr"],
-         cases=[dict(id="n%d" % n, defines={"NSETS": n}, unwind=n + 2,
-                     tier="quick" if n in (1, 512, 513) else "thorough")
-                for n in (1, 2, 511, 512, 513, 1024, 1025)]),
+         label="bounded(sets in {1,2,511,512,513,1024,1025})", timeout=900,
+         include_dirs=["lib/sqfs/src/xattr"], object_bits=12, weight=8,
+         cases=[dict(id="n%d_g%d" % (n, g), defines={"NSETS": n, "GROW": g},
+                     unwind=n + 2,
+                     tier="quick" if (n, g) in ((1, 3), (512, 8194), (513, 3)) else "thorough")
+                for n in (1, 2, 511, 512, 513, 1024, 1025) for g in (3, 8194)]),
     dict(name="dir_run", file="dir_run.c", label="proved", timeout=1200,
          nochecks=["--conversion-check"], weight=20,
          cases=[dict(id="n257", defines={"DR_N": 257}, unwind=258, tier="quick",
